@@ -53,6 +53,7 @@ type Agg struct {
 	PerSpace    []map[string]any
 	Samples     []any
 	Stats       Stats
+	Recheck     map[string]any
 }
 
 // RunSpaces explores every space with the shared worker pool, until the
@@ -62,6 +63,28 @@ func RunSpaces(run *evid.Run, spaces []Space, deadline time.Time, workers int) *
 	report := func(sig, what string, hist []string, p Params) {
 		run.Violation(p.Type+":"+sig, what, map[string]any{"params": p, "history": hist})
 	}
+	// Pre-pass: run the eager schedule of every crash-point space once so the
+	// durable-writes-per-step table is complete before exploration lists crash points.
+	for _, sp := range spaces {
+		if !sp.P.CrashPoints {
+			continue
+		}
+		pp := sp.P
+		pp.MaxCuts = 0
+		if w, err := New(pp, report, &agg.Stats); err == nil {
+			for n := 0; n < 200; n++ {
+				acts := w.Enabled()
+				if len(acts) == 0 {
+					break
+				}
+				if err := w.Do(acts[0]); err != nil {
+					break
+				}
+			}
+			w.Close()
+		}
+	}
+	FreezeWritesTable()
 	for _, sp := range spaces {
 		if time.Now().After(deadline) {
 			agg.Caps = append(agg.Caps, "deadline before "+sp.P.Name())
@@ -110,6 +133,35 @@ func RunSpaces(run *evid.Run, spaces []Space, deadline time.Time, workers int) *
 		}
 		agg.mu.Unlock()
 	}
+	// Determinism re-check: re-explore one completed space and require identical
+	// coverage (a differing count means hidden state outside the canonical key).
+	for i, ps := range agg.PerSpace {
+		if ps["exhaustive"] != true || ps["states"].(int64) > 4000 || time.Now().After(deadline) {
+			continue
+		}
+		sp := spaces[i]
+		if sp.P.Name() != ps["space"] {
+			continue
+		}
+		res := explore.Run(explore.Options{
+			New: func() (explore.World, error) {
+				w, err := New(sp.P, report, &agg.Stats)
+				if err != nil {
+					return nil, err
+				}
+				w.Hooks = sp.Hooks
+				return w, nil
+			},
+			MaxDeviations: sp.Dev, Workers: workers, Deadline: deadline,
+		}, nil)
+		agg.Recheck = map[string]any{"space": sp.P.Name(), "states_first": ps["states"], "states_second": res.States,
+			"transitions_first": ps["transitions"], "transitions_second": res.Transitions,
+			"identical": res.States == ps["states"].(int64) && res.Transitions == ps["transitions"].(int64)}
+		if res.Exhaustive && agg.Recheck["identical"] != true {
+			agg.Caps = append(agg.Caps, "nondeterminism_detected in "+sp.P.Name())
+		}
+		break
+	}
 	return agg
 }
 
@@ -131,6 +183,7 @@ func (a *Agg) Coverage(rule string) map[string]any {
 		"max_depth":                     a.MaxDepth,
 		"replay_steps_on_impl":          a.ReplaySteps,
 		"per_space":                     a.PerSpace,
+		"determinism_recheck":           a.Recheck,
 		"oracle_counts": map[string]any{
 			"signatures_verified_by_peer": a.Stats.SigsVerified.Load(),
 			"commitments_checked":         a.Stats.CommitsChecked.Load(),
@@ -141,6 +194,8 @@ func (a *Agg) Coverage(rule string) map[string]any {
 			"constraint_noops":            a.Stats.ConstraintNoops.Load(),
 			"crash_mid_step":              a.Stats.CrashMidStep.Load(),
 			"max_durable_writes_per_step": a.Stats.MaxWrites.Load(),
+			"durable_writes_table":        WritesTable(),
+			"crash_points_discovered_late": WritesTableLate.Load(),
 		},
 	}
 }
